@@ -28,3 +28,16 @@ r = hd.sr.ReferencedSegment.from_segmentation(seg([(1,None),(1,5)]), segment_num
 print('whole image + frame 5:', frames_of(r))
 r = hd.sr.ReferencedSegmentationFrame.from_segmentation(seg([(1,None),(1,5)]), frame_number=[1,2])
 print('frame builder whole image + frame 5:', frames_of(r))
+# follow-up (second review): the union of the source frame numbers must stay linear in the number of frames - a segment with
+# n frames, each derived from its own source frame (the normal tiled case), by segment and by an explicit frame list;
+# the order-preserving union is unchanged (first mention first)
+import time
+n = 10000
+d = seg([(1, n - i) for i in range(n)]); d.TotalPixelMatrixRows = 64
+t = time.time(); r = hd.sr.ReferencedSegment.from_segmentation(d, segment_number=1); t1 = time.time() - t
+ok1 = [int(x) for x in frames_of(r)[0]] == [n - i for i in range(n)]
+t = time.time(); r = hd.sr.ReferencedSegmentationFrame.from_segmentation(d, frame_number=list(range(1, n + 1))); t2 = time.time() - t
+ok2 = [int(x) for x in frames_of(r)[0]] == [n - i for i in range(n)]
+print(f'n = {n}: ReferencedSegment {t1:.2f} s, ReferencedSegmentationFrame {t2:.2f} s (want < 2 s each); order kept: {ok1 and ok2}')
+import sys
+sys.exit(0 if t1 < 2 and t2 < 2 and ok1 and ok2 else 1)
